@@ -31,6 +31,9 @@ def sliceList (a : Arr2) (ky kx : AxisKey) : Py (List Expr) := do
   | .arr2 _ _ l => .ok l
   | .scalar _ => .error .typeError
 
+/-- `([arr[i, j]] if cond else [])` -/
+def optItem (cond : Bool) (g : Py Expr) : Py (List Expr) := if cond then g.map ([·]) else .ok []
+
 /-- One of the two `solver.ensure(fold_or(ends).then(line_length(back) + line_length(forth) == n))`. -/
 def armCs (ends back forth : List Expr) (n : Int) : Py Expr := do
   let fo ← foldOr ends
@@ -48,13 +51,13 @@ def cellCs (pb : Problem) (f : Frame) (isPassed : Arr2) (p : Nat × Nat) : Py (L
   let v ← tableGet pb.problem y x
   if v ≥ 1 then do
     let c0 ← ensure1 (← isPassed.get y x)
-    let e1 ← if x > 0 then (f.horizontal.get y (x - 1)).map ([·]) else .ok []
-    let e2 ← if x < (pb.width : Int) - 1 then (f.horizontal.get y x).map ([·]) else .ok []
+    let e1 ← optItem (decide (x > 0)) (f.horizontal.get y (x - 1))
+    let e2 ← optItem (decide (x < (pb.width : Int) - 1)) (f.horizontal.get y x)
     let back ← sliceList f.horizontal (.idx y) (.slice none (some x) none)
     let forth ← sliceList f.horizontal (.idx y) (.slice (some x) none none)
     let c1 ← armCs (e1 ++ e2) back.reverse forth v
-    let e3 ← if y > 0 then (f.vertical.get (y - 1) x).map ([·]) else .ok []
-    let e4 ← if y < (pb.height : Int) - 1 then (f.vertical.get y x).map ([·]) else .ok []
+    let e3 ← optItem (decide (y > 0)) (f.vertical.get (y - 1) x)
+    let e4 ← optItem (decide (y < (pb.height : Int) - 1)) (f.vertical.get y x)
     let up ← sliceList f.vertical (.slice none (some y) none) (.idx x)
     let down ← sliceList f.vertical (.slice (some y) none none) (.idx x)
     let c2 ← armCs (e3 ++ e4) up.reverse down v
